@@ -14,6 +14,7 @@ package main
 import (
 	"encoding/json"
 	"fmt"
+	"reflect"
 	"strings"
 
 	"github.com/high-moctane/mocrelay"
@@ -53,6 +54,10 @@ func c11Admit(cls string, text []byte) c11Case {
 		x := toX(m)
 		c.V = &x
 		c.Valid = mocrelay.ValidClientMsg(m)
+		// judging is reading: the message is the same afterwards and is judged the same again
+		if again := mocrelay.ValidClientMsg(m); again != c.Valid || !reflect.DeepEqual(toX(m), x) {
+			c.Pan = true
+		}
 	}()
 	if j, ok := parseJV(text, c10MaxDepth, c10MaxSize); ok {
 		c.J = &j
@@ -66,7 +71,21 @@ func c11Admit(cls string, text []byte) c11Case {
 
 func c11Valid(cls string, v XVal) c11Case {
 	c := c11Case{K: "valid", Cls: cls, V: &v}
-	c.Valid, c.Pan = validClient(fromX(v))
+	p := fromX(v)
+	c.Valid, c.Pan = validClient(p)
+	if m, ok := p.(mocrelay.ClientMsg); ok && !c.Pan {
+		func() {
+			defer func() {
+				if recover() != nil {
+					c.Pan = true
+				}
+			}()
+			before := toX(m)
+			if again := mocrelay.ValidClientMsg(m); again != c.Valid || !reflect.DeepEqual(toX(m), before) {
+				c.Pan = true
+			}
+		}()
+	}
 	return c
 }
 
@@ -551,14 +570,23 @@ func c11XFilter(r *common.Rand) *XFilter {
 	f := &XFilter{}
 	if r.Bool() {
 		v := hs([]string{c11Hex(r, 64)})
+		if r.Chance(25) { // the same id twice, and another one after it
+			v = append(v, v[0], HStr(c11Hex(r, 64)))
+		}
 		f.IDs = &v
 	}
 	if r.Bool() {
 		v := hs([]string{c11Hex(r, 64), c11Hex(r, 64)})
+		if r.Chance(25) {
+			v = append([]HStr{v[0]}, v...)
+		}
 		f.Authors = &v
 	}
 	if r.Bool() {
 		v := []int64{common.Pick(r, c11Kinds)}
+		if r.Chance(25) { // a repeated kind next to others (a list that is sorted or compacted in place shows it)
+			v = append(v, common.Pick(r, c11Kinds), v[0])
+		}
 		f.Kinds = &v
 	}
 	if r.Bool() {
